@@ -651,3 +651,7 @@ PROPS["C01"]["proofs"] = PROPS["C01"]["proofs"] + ["Bmc.Proofs.EndToEnd.SessionC
 PROPS["C01"]["claim"] += (" generated_SendCommand_answered (Proofs/EndToEnd/SessionC01.lean): on a session whose keys both sides hold, the one datagram SendCommand AS TRANSLATED ON THIS RUN sends for any "
                           "well-posed command passes the conforming BMC's integrity check, decryption and message checks, and the translated code returns the BMC handler's completion code; generated_all_commands_answered: the same for histories of ANY length — "
                           "generatedConverse threads the regenerated SendCommand's own connection value from call to call against the conforming BMC, and every call returns the handler's answer to that very command with the next sequence number.")
+PROPS["C01"]["proofs"] = PROPS["C01"]["proofs"] + ["Bmc.Proofs.EndToEnd.WholeC01"]
+PROPS["C01"]["claim"] += (" WHOLE (Proofs/EndToEnd/WholeC01.lean: generated_session_then_commands): newV2Session AS TRANSLATED against the specification's BMC (typed) returns a session value whose keys, read the way "
+                          "buildAndSend reads them (keysOfSession), are the BMC's own, and every command of ANY history sent on it by SendCommand AS TRANSLATED is accepted by that BMC — integrity check and decryption with "
+                          "ITS OWN K1 / K2 — and answered with the handler's completion code.")
